@@ -15,10 +15,14 @@ CODE = {
     "py": ["def f(x):", "    return [i for i in range(10)]  # c", "class A(B): pass", "    s = 'str' + \"x\""],
     "mk": ["all: a.o b.o", "\t$(CC) -o $@ $^", "CFLAGS += -O2 # opt", ".PHONY: clean"],
     "txt": ["plain words here", "more, text; 123", "", "tabs\there"],
+    "toml": ["[package]", "name = \"delta\" # comment", "version = \"1.2.3\"", "[[bin]]", "edition = 2021"],
+    "cmake": ["cmake_minimum_required(VERSION 3.10)", "project(demo C CXX) # c", "set(SRC main.c util.c)", "add_executable(demo ${SRC})"],
 }
 # (name, another name of the same kind) -> language
 RENAMES = [("main.rs", "lib.rs", "rs"), ("a/b/tool.py", "x.py", "py"), ("Makefile", "sub/Makefile", "mk"),
-           ("notes.txt", "README.txt", "txt"), ("noext", "other_noext", "txt")]
+           ("notes.txt", "README.txt", "txt"), ("noext", "other_noext", "txt"),
+           # names that are known as whole names although they have an extension (eight entries: coprime with the three kinds of job)
+           ("Makefile.am", "Makefile", "mk"), ("Cargo.lock", "conf.toml", "toml"), ("CMakeLists.txt", "x.cmake", "cmake")]
 # styles: removed lines without 'syntax' on a recognisable background, added and unchanged with
 STYLES = ["--minus-style", "bold red 52", "--minus-emph-style", "italic red 88", "--plus-style", "syntax 22",
           "--plus-emph-style", "syntax ul 28", "--zero-style", "syntax", "--line-numbers-minus-style", "dim 196",
@@ -40,8 +44,11 @@ def make_diff(name, lang, r2):
 
 
 def trailing_blanks(d):
-    return b"\n".join((l + b" " * (3 + (k % 4)) if l[:1] in (b"+", b"-", b" ") and 18 <= len(l) <= 30 else l)
-                      for k, l in enumerate(d.split(b"\n")))
+    # (hunk lines only: the "--- a/name" / "+++ b/name" lines before the first hunk header stay as they are)
+    lines = d.split(b"\n")
+    first = next((k for k, l in enumerate(lines) if l.startswith(b"@@")), len(lines))
+    return b"\n".join((l + b" " * (3 + (k % 4)) if k > first and l[:1] in (b"+", b"-", b" ") and 18 <= len(l) <= 30 else l)
+                      for k, l in enumerate(lines))
 
 
 def cell_rec(row):
